@@ -88,13 +88,18 @@ def run_cases(ck, res, n_cases, n_interval):
         leaves = [f'x{i}' for i in range(1, n + 1)]
         nrows = r.randint(1, 5)
         pts = {l: [dy(r, -2, 2, 4) for _ in range(nrows)] for l in leaves}
+        if r.random() < 0.2:      # (random, not `ci % k`: the operator is chosen by `ci % 20`, a modular trigger would alias)
+            # every sample on a symmetry plane x_j = 0: a derivative that VANISHES on the whole batch is still a function of
+            # the coordinates (its own derivatives need not vanish)
+            pts[r.choice(leaves)] = [0.0] * nrows
         X = {l: enga.col(torch, pts[l]) for l in leaves}
-        # every 4th case: fields affine in the coordinates (constant slopes: derivatives that do not require grad)
-        probes = {s: (Probe.affine(len(dep), dy(r, -2, 2), [dy(r, -2, 2) or 1.0 for _ in dep]) if ci % 4 == 3 else Probe(len(dep), r, nterms=r.randint(1, 3)))
+        affine_case = r.random() < 0.25
+        # a quarter of the cases: fields affine in the coordinates (constant slopes: derivatives that do not require grad)
+        probes = {s: (Probe.affine(len(dep), dy(r, -2, 2), [dy(r, -2, 2) or 1.0 for _ in dep]) if affine_case else Probe(len(dep), r, nterms=r.randint(1, 3)))
                   for s, dep in syms}
         fields = [probes[s].torch(*[X[l] for l in dep]) for s, dep in syms]
         bare = {}
-        if ci % 6 == 5:
+        if r.random() < 0.17:
             # some components are a coordinate column ITSELF (the leaf tensor, no autograd history): the position field
             # (x, y, z) has divergence 3; "no history" does not mean "constant"
             for k, (s, dep) in enumerate(syms):
